@@ -31,11 +31,11 @@ import (
 
 func init() {
 	register(&propCheck{
-		id:    "C10",
-		level: "proof",
+		id:          "C10",
+		level:       "proof",
 		explanation: "Whole property except NaN (for which the statement defines no result): every instantiation of ToInt…ToUint64 (10 targets × 12 source kinds × {predeclared, named}) is decided exactly. The SSA of the instantiation is evaluated with exact arithmetic and the Go specification's conversion semantics (integer→integer wraps, float→integer truncates when representable and is implementation-defined = poison otherwise, integer→float rounds to nearest even) at the two ends of every cell of a partition of the source type; the partition starts from all range boundaries of all targets (±1, and the neighbouring floats) and is refined by bisection wherever the two ends take different branches, down to single values. The interpreter only admits programs in which every branch depends on the argument through a conversion chain compared with a constant (or a type/kind test), so equal traces at both ends of a cell mean equal traces inside it; on such a cell the result is a constant c with clamp(trunc(v)) = c at both ends, or the direct in-range conversion: equality with clamp∘trunc, hence saturation and monotonicity, follow for the whole cell. A comparison or result that goes through a wrapped or implementation-defined conversion is a violation; any construct outside the admitted subset makes the run undecided (never ok). 'Never panics' is decided by the absence, in the package's non-test functions, of every instruction that can panic (index, slice, division by a non-constant, single-value type assertion, nil-able dereference, panic call). Decided for 64-bit int/uint (amd64): the repository itself does not type-check for 32-bit targets (safecast/cast.go passes math.MinInt64 as an int, filesystem/extendedfile.go overflows uintptr), so a 32-bit configuration cannot be analysed.",
-		run:   runC10,
-		overlayGen: c10Overlay,
+		run:         runC10,
+		overlayGen:  c10Overlay,
 		trustedBase: []string{"go/types, go/constant, go/ssa (x/tools v0.50.0)", "math/big", "the transcription of the Go specification's conversion rules in checker/c10.go", "gc on amd64/386 implements the specified conversions for representable values"},
 		assumptions: []string{
 			"NaN arguments are outside the statement (reported as information only)",
